@@ -49,6 +49,9 @@ type c07Params struct {
 	Shrink bool `json:"shrink,omitempty"`
 	// QuickBound: preemption bound of this scenario in the quick tier (0 = the tier's bound)
 	QuickBound int `json:"quick_bound,omitempty"`
+	// ThoroughBound: preemption bound of this scenario in the thorough tier (0 = the tier's bound);
+	// for scenarios with many threads, so that they do not use up the budget of the ones after them
+	ThoroughBound int `json:"thorough_bound,omitempty"`
 	Prop   string       `json:"prop,omitempty"` // property the scenario reports under (default C07)
 	// Fine: every function entry of a server thread is a scheduling point (state
 	// shared without a synchronisation operation between the conflicting accesses)
@@ -580,7 +583,7 @@ func c07Scenarios(tier string) []c07Params {
 		{Name: "set-then-get", Pre: pre, Conns: [][][]string{one("SET k a POINT 3 3"), one("GET k a")}, After: map[int]int{1: 0}},
 		// two objects expiring in one sweep, watched by a live fence connection
 		{Name: "two-expiring-vs-live-fence", Pre: append(append([][]string{}, pre...), w("SET k e EX 1.1 POINT 1 1"), w("SET k f EX 1.1 POINT 1.001 1.001")),
-			Conns: [][][]string{one("GET k e"), one("DEL k a")}, Expire: true, Live: true, LiveDels: true, QuickBound: 1},
+			Conns: [][][]string{one("GET k e"), one("DEL k a")}, Expire: true, Live: true, LiveDels: true, QuickBound: 1, ThoroughBound: 2},
 		{Name: "set-live", Pre: pre, Conns: [][][]string{one("SET k a POINT 1.001 1.001")}, Live: true},
 		{Name: "set-del-vs-aofshrink", Pre: pre, Conns: [][][]string{two("SET k a POINT 3 3", "DEL k b"), one("SET k c POINT 4 4")}, Shrink: true, QuickBound: 1},
 		// a write racing with the command that makes the server read-only: once READONLY is answered no write takes effect
@@ -649,6 +652,9 @@ func checkC07(job *Job, res *Result) {
 		b := bound
 		if p.QuickBound > 0 && job.Tier != "thorough" {
 			b = p.QuickBound
+		}
+		if p.ThoroughBound > 0 && job.Tier == "thorough" && b > p.ThoroughBound {
+			b = p.ThoroughBound
 		}
 		if p.Fine {
 			b = bound - 1 // hundreds of points per execution
